@@ -78,7 +78,7 @@ pub struct XformCase {
 pub fn xform_strategy(_t: Tier) -> BoxedStrategy<XformCase> {
     (
         prop_oneof![Just(Xform::Fft), Just(Xform::Ifft)],
-        prop_oneof![24 => 0u8..=7, 8 => 8u8..=10, 1 => 11u8..=13],
+        prop_oneof![150 => 0u8..=7, 50 => 8u8..=10, 6 => 11u8..=13, 1 => 14u8..=16],
         prop_oneof![3 => Just(0usize), 3 => 1usize..=9, 1 => 10usize..=70],
         0usize..=3,
         prop_oneof![5 => Just(1usize), 2 => Just(2usize), 1 => 3usize..=4],
@@ -111,6 +111,8 @@ pub fn xform_strategy(_t: Tier) -> BoxedStrategy<XformCase> {
                 3 => (gen::idx_map(sraw, max_delta / size)) * size,
                 _ => gen::idx_map(sraw, max_delta),
             };
+            let (pos, blocks) = if size_log >= 14 { (pos.min(8), 1) } else { (pos, blocks) };
+            let skew_delta = skew_delta.min(65536 - size);
             XformCase { which, size_log, pos, after, blocks, trunc, skew_delta, zero_tail, seed }
         })
         .boxed()
